@@ -4,10 +4,39 @@
 // compiled only under the build tag "verif").
 package value
 
-// valueEq(a, b): the relation Equal decides (defined per oneof arm in C19).
-//@ spec valueEq(*pb.TypedValue, *pb.TypedValue) bool
+// What protobuf decoding guarantees for a TypedValue: a set oneof holds a
+// non-nil wrapper, message-valued arms hold a non-nil message, a leaf-list has
+// no nil element.
+//@ pred TVWf(v *pb.TypedValue) := v == nil || v.Value == nil || (payload(v.Value) != nil
+//@   && (isa(v.Value.(*pb.TypedValue_DecimalVal)) ==> v.Value.(*pb.TypedValue_DecimalVal).DecimalVal != nil)
+//@   && (isa(v.Value.(*pb.TypedValue_LeaflistVal)) ==> v.Value.(*pb.TypedValue_LeaflistVal).LeaflistVal != nil))
+//@ pred AllTVWf() := forall v *pb.TypedValue :: TVWf(v)
+//@ pred ListOf(v *pb.TypedValue) := v.Value.(*pb.TypedValue_LeaflistVal).LeaflistVal.Element
 
+// valueEq(a, b): both hold the same oneof arm with the same scalar (doubles and
+// floats by IEEE equality, bytes by content, decimals by digits and precision,
+// leaf-lists element-wise); every other arm, and nil, equals nothing.
+//@ spec valueEq(*pb.TypedValue, *pb.TypedValue) bool
+//@ axiom forall a *pb.TypedValue, b *pb.TypedValue :: valueEq(a, b) <==> VEq(a, b)
+//@ pred VOf(v *pb.TypedValue) := ite(v == nil, nil, v.Value)
+//@ pred VEq(a *pb.TypedValue, b *pb.TypedValue) :=
+//@      (isa(VOf(a).(*pb.TypedValue_StringVal)) && isa(VOf(b).(*pb.TypedValue_StringVal)) && VOf(a).(*pb.TypedValue_StringVal).StringVal == VOf(b).(*pb.TypedValue_StringVal).StringVal)
+//@   || (isa(VOf(a).(*pb.TypedValue_IntVal)) && isa(VOf(b).(*pb.TypedValue_IntVal)) && VOf(a).(*pb.TypedValue_IntVal).IntVal == VOf(b).(*pb.TypedValue_IntVal).IntVal)
+//@   || (isa(VOf(a).(*pb.TypedValue_UintVal)) && isa(VOf(b).(*pb.TypedValue_UintVal)) && VOf(a).(*pb.TypedValue_UintVal).UintVal == VOf(b).(*pb.TypedValue_UintVal).UintVal)
+//@   || (isa(VOf(a).(*pb.TypedValue_BoolVal)) && isa(VOf(b).(*pb.TypedValue_BoolVal)) && VOf(a).(*pb.TypedValue_BoolVal).BoolVal == VOf(b).(*pb.TypedValue_BoolVal).BoolVal)
+//@   || (isa(VOf(a).(*pb.TypedValue_BytesVal)) && isa(VOf(b).(*pb.TypedValue_BytesVal)) && strof(VOf(a).(*pb.TypedValue_BytesVal).BytesVal) == strof(VOf(b).(*pb.TypedValue_BytesVal).BytesVal))
+//@   || (isa(VOf(a).(*pb.TypedValue_DoubleVal)) && isa(VOf(b).(*pb.TypedValue_DoubleVal)) && VOf(a).(*pb.TypedValue_DoubleVal).DoubleVal == VOf(b).(*pb.TypedValue_DoubleVal).DoubleVal)
+//@   || (isa(VOf(a).(*pb.TypedValue_FloatVal)) && isa(VOf(b).(*pb.TypedValue_FloatVal)) && VOf(a).(*pb.TypedValue_FloatVal).FloatVal == VOf(b).(*pb.TypedValue_FloatVal).FloatVal)
+//@   || (isa(VOf(a).(*pb.TypedValue_DecimalVal)) && isa(VOf(b).(*pb.TypedValue_DecimalVal))
+//@        && VOf(a).(*pb.TypedValue_DecimalVal).DecimalVal.Digits == VOf(b).(*pb.TypedValue_DecimalVal).DecimalVal.Digits
+//@        && VOf(a).(*pb.TypedValue_DecimalVal).DecimalVal.Precision == VOf(b).(*pb.TypedValue_DecimalVal).DecimalVal.Precision)
+//@   || (isa(VOf(a).(*pb.TypedValue_LeaflistVal)) && isa(VOf(b).(*pb.TypedValue_LeaflistVal)) && len(ListOf(a)) == len(ListOf(b))
+//@        && (forall i int :: 0 <= i && i < len(ListOf(a)) ==> valueEq(ListOf(a)[i], ListOf(b)[i])))
+
+// Equal is total (no panic, nil included) and decides exactly valueEq; valueEq is
+// symmetric by its definition and never relates two different values.
 //@ func Equal
-//@   props C19 C12
-//@   trusted functional postcondition not yet proved against the body (see C19)
-//@   ensures res0 <==> valueEq(a, b)
+//@   props C19 C03 C12
+//@   requires AllTVWf()
+//@   invariant 0: [prefix-equal] forall j int :: 0 <= j && j < $i ==> valueEq(ae[j], be[j])
+//@   ensures [decides-valueEq C19] res0 <==> valueEq(a, b)
